@@ -2,6 +2,7 @@
 // The trait of /repo/src/traits.rs has three methods implemented in ONE impl block; a region emits one `impl` block per method, so
 // each method needs its own hand-declared trait in its own module: `ct_select` lives in l8_boxed_methods.rs, `ct_assign` here
 // (users import `crate::l8_boxed_ct::ConstantTimeSelect` by name), `ct_swap` is not covered.
+// Same situation for `Zero::set_zero` (src/uint/boxed.rs; `Zero::is_zero` lives in l8_boxed_methods.rs): declared and proved here.
 use vstd::prelude::*;
 use crate::speclib::*;
 use crate::l0_corespec::*;
@@ -19,6 +20,14 @@ pub trait ConstantTimeSelect: Clone {
     fn ct_assign(&mut self, other: &Self, choice: Choice)
         requires old(self).ct_assign_req(other, choice)
         ensures old(self).ct_assign_ens(other, choice, *final(self));
+}
+
+/// `Zero` of /repo/src/traits.rs, `set_zero` part (the `is_zero` part is declared in l7_traits.rs and implemented for BoxedUint in
+/// l8_boxed_methods.rs: one region = one impl block = one method). `BoxedUint` overrides the provided method with an in-place fill.
+pub trait Zero: Sized {
+    spec fn set_zero_ens(&self, r: Self) -> bool;
+    fn set_zero(&mut self)
+        ensures old(self).set_zero_ens(*final(self));
 }
 
 //@@ fn src/uint/boxed/ct.rs | impl ConstantTimeSelect for BoxedUint | ct_assign | body | props C06 C11
@@ -47,6 +56,18 @@ fn ct_assign(&mut self, other: &Self, choice: Choice)
         if choice.t() { assert(self.limbs@ =~= other.limbs@); } else { assert(self.limbs@ =~= s0); }
     }
 //@-
+    }
+}
+//@@ end
+
+//@@ fn src/uint/boxed.rs | impl Zero for BoxedUint | set_zero | body | props C05 C11
+impl Zero for BoxedUint {
+//@+
+    open spec fn set_zero_ens(&self, r: Self) -> bool { r.limbs@.len() == self.limbs@.len() && forall|k: int| 0 <= k < r.limbs@.len() ==> r.limbs@[k].0 == 0 }
+//@-
+fn set_zero(&mut self)
+{
+        self.limbs.as_mut().fill(Limb::ZERO)
     }
 }
 //@@ end
